@@ -58,7 +58,19 @@ func (s *Step) args() map[string]any {
 
 // owners of a missing / wrong error, by the error class the model demands
 func classOwners(op string, app []string) string {
+	return classOwnersVia(op, app, "", false)
+}
+
+// missing: the call reported success although a step of it was rejected -- that is C07's statement whatever the class;
+// a call through the child store is also C15's ("parent-store indexes and constraints apply identically to child entities")
+func classOwnersVia(op string, app []string, via string, missing bool) string {
 	set := map[string]bool{}
+	if missing {
+		set["C07"] = true
+	}
+	if via == "staff" {
+		set["C15"] = true
+	}
 	for _, a := range app {
 		switch a {
 		case "dup", "emptyUnique":
@@ -83,7 +95,9 @@ func classOwners(op string, app []string) string {
 }
 
 type Runner struct {
-	Env *Env
+	Prop  string // the property under check ("" = stop at the first divergence whoever owns it)
+	blind bool   // a divergence owned by another property happened: keep executing, compare nothing against the model any more
+	Env   *Env
 	Idx int // behaviour index
 	V   []Violation
 	// statistics
@@ -212,6 +226,11 @@ func (r *Runner) exec(ctx boltz.MutateContext, s *Step, salt int) (ret string, e
 	}
 	id := tok.Real(str(a["id"]))
 	ret = project.Nil
+	if a["osys"] == true {
+		// the call is made with a system context derived from the transaction's context; the transaction's own
+		// context must keep its privileges (or lack of them) for the calls that follow
+		ctx = ctx.GetSystemContext()
+	}
 	switch s.op() {
 	case "create":
 		if str(a["via"]) == "staff" {
@@ -411,12 +430,20 @@ func (r *Runner) Run(steps []Step) bool {
 						return err
 					}
 					r.OpsOk++
+					r.residue(at, ctx.Tx(), prevDb(steps, at), s)
+					if r.blind {
+						continue
+					}
 					if mr := modelRet(s); mr != ret {
 						r.viol(at, "wrong-return", "C05", fmt.Sprintf("%s %v returned %s, model %s", s.op(), s.args(), ret, mr), nil, "wrong-return:"+s.op())
 					}
 					diffs := project.Compare(project.ModelFacts(s.Db), project.StoreFacts(project.Dump(ctx.Tx()), env.Tok))
 					if len(diffs) > 0 {
 						r.viol(at, "state-in-tx", diffOwners(diffs), fmt.Sprintf("after %s %v (inside the transaction)", s.op(), s.args()), diffs, diffSig("state", s, diffs))
+						if r.foreign(diffOwners(diffs)) {
+							r.blind = true // another property's divergence: go on, looking only at what needs no model state
+							continue
+						}
 						divergedAt = at
 						opErr = ErrEnd
 						return ErrEnd
@@ -426,13 +453,13 @@ func (r *Runner) Run(steps []Step) bool {
 				// the model rejects the call
 				r.OpsFailed++
 				if err == nil {
-					r.viol(at, "missing-error", classOwners(s.op(), s.app()), fmt.Sprintf("%s %v reported success, model demands one of %v", s.op(), s.args(), s.app()), nil, "missing-error:"+s.op()+":"+strings.Join(s.app(), "+"))
+					r.viol(at, "missing-error", classOwnersVia(s.op(), s.app(), str(s.args()["via"]), true), fmt.Sprintf("%s %v reported success, model demands one of %v", s.op(), s.args(), s.app()), nil, "missing-error:"+s.op()+":"+strings.Join(s.app(), "+"))
 					divergedAt = at
 					opErr = ErrEnd
 					return ErrEnd
 				}
 				if want := Coarsen(s.op(), s.app()); !want[Classify(err)] {
-					r.viol(at, "wrong-error-class", classOwners(s.op(), s.app()), fmt.Sprintf("%s %v failed with class %s (%v), model allows %s", s.op(), s.args(), Classify(err), err, keys(want)), nil, "wrong-error-class:"+s.op()+":"+Classify(err)+":"+strings.Join(s.app(), "+"))
+					r.viol(at, "wrong-error-class", classOwnersVia(s.op(), s.app(), str(s.args()["via"]), false), fmt.Sprintf("%s %v failed with class %s (%v), model allows %s", s.op(), s.args(), Classify(err), err, keys(want)), nil, "wrong-error-class:"+s.op()+":"+Classify(err)+":"+strings.Join(s.app(), "+"))
 				}
 				opErr = err
 				return err
@@ -504,6 +531,10 @@ func (r *Runner) Run(steps []Step) bool {
 				r.viol(j, "commit-error", "C07", fmt.Sprintf("model commits, Db returned %v", txErr), nil, "commit-error")
 				return false
 			}
+			if r.blind {
+				i = j + 1
+				continue
+			}
 			want := modelEvents(e.Last)
 			wantActs := 0
 			fmt.Sscan(str(e.Last["acts"]), &wantActs)
@@ -529,6 +560,10 @@ func (r *Runner) Run(steps []Step) bool {
 				r.viol(j, "tx-complete", "C08", fmt.Sprintf("tx-complete listener invoked %d times, want %d", obs.Txc, wantTxc), nil, "tx-complete")
 			}
 		}
+		if r.blind {
+			i = j + 1
+			continue
+		}
 		// committed / restored state
 		diffs := project.Compare(project.ModelFacts(e.Db), project.StoreFacts(r.dumpLive(), env.Tok))
 		if len(diffs) > 0 {
@@ -547,6 +582,80 @@ func (r *Runner) Run(steps []Step) bool {
 		i = j + 1
 	}
 	return true
+}
+
+func (r *Runner) foreign(owners string) bool {
+	if r.Prop == "" {
+		return false
+	}
+	for _, o := range strings.Split(owners, ",") {
+		if o == r.Prop || o == "core" {
+			return false
+		}
+	}
+	return true
+}
+
+func prevDb(steps []Step, at int) map[string]any {
+	if at > 0 {
+		return steps[at-1].Db
+	}
+	return nil
+}
+
+func presentIds(db map[string]any, key string) map[string]bool {
+	out := map[string]bool{}
+	switch v := db[key].(type) {
+	case map[string]any:
+		for id, e := range v {
+			if m, ok := e.(map[string]any); ok && m["none"] == nil {
+				out[id] = true
+			}
+		}
+	case []any:
+		for _, id := range v {
+			out[fmt.Sprint(id)] = true
+		}
+	}
+	return out
+}
+
+// residue is C06's own observation and needs no model state beyond "which ids did this call delete": after a delete
+// the id must not occur anywhere in the file (as key, typed key, bucket name, value or typed value)
+func (r *Runner) residue(at int, tx *bbolt.Tx, before map[string]any, s *Step) {
+	if before == nil || (s.op() != "delete" && s.op() != "deleteTeam") {
+		return
+	}
+	var gone []string
+	for _, key := range []string{"ent", "tms"} {
+		was, is := presentIds(before, key), presentIds(s.Db, key)
+		for id := range was {
+			if !is[id] {
+				gone = append(gone, id)
+			}
+		}
+	}
+	if len(gone) == 0 {
+		return
+	}
+	root := project.Dump(tx)
+	for _, id := range gone {
+		real := r.Env.Tok.Real(id)
+		// a value equal to the id is residue only where ids are stored: name/nick/grade values live in ent/*/name.. and in the unique indexes
+		occ := root.Occurrences(real, func(path []string) bool {
+			last := path[len(path)-1]
+			if last == "name" || last == "nick" || last == "grade" {
+				return true
+			}
+			if len(path) >= 4 && path[1] == "indexes" && (path[3] == "name" || path[3] == "nick" || path[3] == "grade") {
+				return true
+			}
+			return false
+		})
+		if len(occ) > 0 {
+			r.viol(at, "residue", "C06", fmt.Sprintf("after %s %v the deleted id %s still occurs: %s", s.op(), s.args(), id, strings.Join(head(occ, 6), "; ")), nil, "residue:"+s.op())
+		}
+	}
 }
 
 func eventSig(got, want []string) string {
